@@ -56,7 +56,7 @@ fn main() {
     });
     let mut ctx = Ctx::new(&id, tier, seed);
     if replay.is_some() {
-        ctx.strict = true;
+        ctx.set_strict();
     }
     run(&mut ctx, replay.as_deref());
     let code = ctx.finish();
